@@ -249,6 +249,19 @@ def gen(rng, tier):
             for a in range(NAT):
                 Q[a] = [x + rng.uniform(-0.2, 0.2) for x in Q[a]]
             L += setpos(Q); L.append("m.step")
+        if bkind == "metadynamics" and len(cases) % 2 == 0:
+            # the run is continued by a fresh instance from a state, with hills configured twice as wide: the hills read from the state keep
+            # the widths they were deposited with, in the energy and in the force alike
+            import os as _os, cvbuild as _cb
+            pfx = _os.path.join(_cb.CACHE, "c01-scratch"); _os.makedirs(pfx, exist_ok=True); pfx = _os.path.join(pfx, "m%d" % len(cases))
+            L.append("m.save %s" % pfx)
+            L += ["m.new %d" % NAT, "M.noclock"] + ([l for l in L if l.startswith("m.opt cell")][:1]) + [l for l in L if l.startswith("m.mass") or l.startswith("m.charge")][:2 * NAT]
+            wide = btext.replace("gaussianSigmas 25.0", "gaussianSigmas 50.0").replace("gaussianSigmas 2.5", "gaussianSigmas 5.0")
+            L.append(cfg(text)); cfgline = len(L)
+            L.append(cfg(wide)); bline = len(L)
+            L.append("m.load %s" % pfx)
+            bkind = "metadynamics(resumed, wider hills)"
+            L += setpos(Q); L.append("m.step")
         Q = [[x + rng.uniform(-0.1, 0.1) for x in q] for q in Q]
         L += setpos(Q); L.append("m.step cont"); base = len(L)
         L.append("m.forces"); fl = len(L)
